@@ -315,7 +315,7 @@ func (fr *frame) visitInstr(instr ssa.Instruction) continuation {
 
 	case *ssa.IndexAddr:
 		x := fr.get(instr.X)
-		idx := fr.get(instr.Index)
+		idx := fr.widenIndex(fr.get(instr.Index), instr.Index.Type())
 		switch x := x.(type) {
 		case []value:
 			i := fr.checkIndex(idx, len(x))
@@ -333,7 +333,7 @@ func (fr *frame) visitInstr(instr ssa.Instruction) continuation {
 
 	case *ssa.Index:
 		x := fr.get(instr.X)
-		idx := fr.get(instr.Index)
+		idx := fr.widenIndex(fr.get(instr.Index), instr.Index.Type())
 		switch x := x.(type) {
 		case array:
 			i := fr.checkIndex(idx, len(x))
@@ -389,6 +389,21 @@ func (fr *frame) jump(to *ssa.BasicBlock) {
 		}
 	}
 	fr.prevBlock, fr.block = fr.block, to
+}
+
+// widenIndex extends a symbolic index of a narrow integer type to 64 bits
+// according to its signedness, so that the range check "idx <u len" is exact
+// (a uint8 index into a [256]T array is always in range; a negative int8
+// index never is).
+func (fr *frame) widenIndex(idx value, t types.Type) value {
+	tm, ok := idx.(*Term)
+	if !ok || tm.Width() >= 64 {
+		return idx
+	}
+	if b, ok := t.Underlying().(*types.Basic); ok && b.Info()&types.IsUnsigned != 0 {
+		return fr.p.tt.ZExt(tm, 64)
+	}
+	return fr.p.tt.SExt(tm, 64)
 }
 
 // strIndex implements s[i] on strings.
